@@ -69,3 +69,21 @@ Proof.
   destruct (pipe_reads_sink m ws s p S PI) as (ks & S' & PI' & T). exists ks. split; [|now rewrite T, Hout].
   split; [exact I'|]. eauto.
 Qed.
+
+(* C09 at slice level, end to end for the models: when the iovec is the sink of an encoder whose sink-level lag
+   (cells from the first pending header on) is L, the bytes buffered but not consumable through stable_prefix are fewer
+   than L plus the length of the one slice that holds the pending header, and that slice fits in its arena chunk *)
+From WP Require iovec.GeoLag.
+Theorem geo_sink_lag m s h g : GS m s h g ->
+  exists p, R h g p /\ PipeProofs.Inv p /\
+    GeoLag.cell_lag p = length (cells s) - length (stable (cells s)) /\
+    match gbackrefs g with
+    | [] => GeoLag.slice_lag p = 0
+    | _ => exists t, nth_error (gslices g) (Pipe.stable_count p) = Some t /\
+                     GeoLag.slice_lag p < GeoLag.cell_lag p + N.to_nat (sl_len t) /\
+                     (forall c off len, t = SArena c off len -> (len <= nlen (cdata (chunk_at h c)))%N)
+    end.
+Proof.
+  intros (I & p & S & Rs & PI). exists p. split; [exact Rs|]. split; [exact PI|].
+  split; [apply (sr_cell_lag m s p S)|]. exact (GeoLag.geo_slice_lag h g p I Rs PI).
+Qed.
